@@ -308,7 +308,7 @@ package silence
 
 // C12 (+ C18 limits): creating / editing a silence through the API.
 //@ func (*Silences).Set
-//@   props C12 C18
+//@   props C12 C18 C02
 //@   ensures [monitor-lock-released] count("Mutex).Lock") == count("Mutex).Unlock") && count("Mutex).Lock") <= 1
 //@   at call Silences).getSilence assert [monitor-lock-held] count("Mutex).Lock") == 1 && count("Mutex).Unlock") == 0
 //@   requires s != nil && storeInv(s) && sil != nil && s.broadcast != nil && s.metrics != nil && metricsOK(s)
@@ -695,7 +695,7 @@ package silence
 //@     forall i int :: 0 <= i && i < len(x) && (x[i].Id in seen) && stateAt(x[i], now) != SilenceStateExpired ==> x[i].Id in elems(ids)
 //@ spec allSeen(x []*pb.Silence, seen map[string]struct{}, upto int) bool = forall i int :: 0 <= i && i < upto ==> x[i].Id in seen
 //@ func (*Silencer).Mutes
-//@   props C02
+//@   props C02 C09
 //@   nosafe
 //@   requires s != nil && s.silences != nil && s.cache != nil && s.cache.entries != nil
 //@   after call Silences).nowUTC assume oneStore(oldSils, oldSils) && oneStore(oldSils, newSils) && oneStore(newSils, newSils)
